@@ -41,11 +41,48 @@ class Case:
         self.canary = canary
 
 
+def _structured(v, depth=0):
+    """z3 value -> JSON-able python value (datatype values as {'cls', 'args'}, sequences as lists)"""
+    if depth > 12:
+        return None
+    if z3.is_string_value(v):
+        return _decode_z3_string(v.as_string())
+    if z3.is_int_value(v):
+        return v.as_long()
+    if z3.is_true(v):
+        return True
+    if z3.is_false(v):
+        return False
+    if z3.is_rational_value(v):
+        return str(v)
+    if z3.is_app(v):
+        k = v.decl().kind()
+        if k == z3.Z3_OP_SEQ_EMPTY:
+            return []
+        if k == z3.Z3_OP_SEQ_UNIT:
+            return [_structured(v.arg(0), depth + 1)]
+        if k == z3.Z3_OP_SEQ_CONCAT:
+            out = []
+            for i in range(v.num_args()):
+                x = _structured(v.arg(i), depth + 1)
+                out.extend(x if isinstance(x, list) else [x])
+            return out
+        name = v.decl().name()
+        if name.startswith("FP_"):
+            return {"cls": name[3:], "args": [_structured(v.arg(i), depth + 1) for i in range(v.num_args())]}
+    return str(v)
+
+
 def _model_value(m, term):
     try:
         v = m.eval(term, model_completion=True)
     except z3.Z3Exception:
         return None
+    try:
+        if z3.is_app(v) and (v.decl().name().startswith("FP_") or z3.is_seq(v)) and not z3.is_string(v):
+            return _structured(v)
+    except Exception:
+        pass
     try:
         if z3.is_string_value(v):
             return v.as_string()
@@ -296,16 +333,49 @@ def _worker(i):
                 "canary": case.canary, "expect_paths_min": case.expect_paths_min}
 
 
+def _dead(case, why):
+    return {"case": case.key, "group": case.group, "paths": 0, "queries": 0, "skipped": 0, "records": [],
+            "error": "crash: %s" % why, "secs": 0.0, "sample": None, "canary": case.canary,
+            "expect_paths_min": case.expect_paths_min}
+
+
 def run_cases(cases, confirm=False, procs=None):
-    """run cases in a fork pool (z3 terms live in the child; results are plain data)"""
+    """run cases in a fork pool (z3 terms live in the child; results are plain data).  A worker that dies
+    (solver segfault) must never hang the run: the unfinished cases are re-run one per fresh process and the one
+    that kills its process is reported as a checker failure for that case."""
     global _CASES
+    from concurrent.futures import ProcessPoolExecutor
+    from concurrent.futures.process import BrokenProcessPool
     _CASES = [(c, confirm) for c in cases]
     procs = procs or int(os.environ.get("VF_PROCS", "0")) or min(16, os.cpu_count() or 4)
-    if procs <= 1 or len(cases) <= 1:
-        return [_worker(i) for i in range(len(cases))]
+    n = len(cases)
+    if n == 0:
+        return []
     ctxm = mp.get_context("fork")
-    with ctxm.Pool(procs, maxtasksperchild=8) as pool:
-        return pool.map(_worker, range(len(cases)), chunksize=1)
+    results = [None] * n
+    todo = list(range(n))
+    try:
+        with ProcessPoolExecutor(max_workers=min(procs, n), mp_context=ctxm) as ex:
+            futs = {i: ex.submit(_worker, i) for i in todo}
+            for i, f in futs.items():
+                try:
+                    results[i] = f.result()
+                except BrokenProcessPool:
+                    pass
+                except Exception as e:  # noqa: BLE001
+                    results[i] = _dead(cases[i], "worker error %r" % (e,))
+    except BrokenProcessPool:
+        pass
+    left = [i for i in range(n) if results[i] is None]
+    for i in left:
+        try:
+            with ProcessPoolExecutor(max_workers=1, mp_context=ctxm) as ex:
+                results[i] = ex.submit(_worker, i).result(timeout=1800)
+        except BrokenProcessPool:
+            results[i] = _dead(cases[i], "the worker process died while deciding this case (solver crash)")
+        except Exception as e:  # noqa: BLE001
+            results[i] = _dead(cases[i], "worker error %r" % (e,))
+    return results
 
 
 def parallel_map(fn, items, procs=None):
